@@ -722,6 +722,29 @@ def boundary_cases(rng, quick):
         if rng.random() < 0.5:
             params['resolution'] = 0
         out.append((algo, gdict('tol0_%s%d' % ('w', n), a), {'params': params}))
+    # the outer loop of Leiden with tolerance 0 of the aggregation (small weighted / bipartite / directed inputs,
+    # several random states: float32 noise as 'increase' with a refinement that merges nothing must not loop for ever)
+    # (measured on the tree before the repair F25: about one hang in 1000 such cases, 5 ms per case)
+    for c in range(1500 if quick else 8000):
+        n = rng.randint(6, 14)
+        kind = c % 3
+        if kind == 0:       # weighted undirected
+            es = graphs.random_edges(rng, n, rng.choice([0.3, 0.5, 0.7]), directed=False)
+            a = _csr(n, es, graphs.sym_weights(rng, es, [0.25, 0.5, 1, 1.5, 2, 3]))
+            ex = {}
+        elif kind == 1:     # directed, boolean
+            es = graphs.random_edges(rng, n, rng.choice([0.5, 0.7, 0.8]), directed=True)
+            a = _csr(n, es)
+            ex = {}
+        else:               # square biadjacency, weighted
+            es = graphs.random_edges(rng, n, rng.choice([0.25, 0.35]), directed=True, loops=True)
+            a = _csr(n, es, [rng.choice([0.25, 0.5, 1, 1.5, 2, 3]) for _ in es])
+            ex = {'force_bipartite': True}
+        params = {'tol_aggregation': 0, 'random_state': rng.randrange(10 ** 6),
+                  'modularity': rng.choice(['dugue', 'newman', 'potts', 'potts']), 'resolution': rng.choice([0.5, 1, 2, 2])}
+        if rng.random() < 0.15:
+            params['tol_optimization'] = 0
+        out.append(('Leiden', gdict('leiden_agg0_%d' % n, a, 'bool' if kind == 1 else 'float'), dict(ex, params=params)))
     rect = gdict('rect_3x4b', _csr(3, [(0, 0), (0, 1), (1, 1), (2, 3), (2, 2)], m=4))
     sq = gdict('path5b', _csr(5, graphs.structured(rng, 'path', 5)))
     for algo in ('Propagation', 'DiffusionClassifier', 'PageRankClassifier', 'NNClassifier'):
@@ -751,7 +774,8 @@ def task_sig(t, kind):
     params = (t.get('extra') or {}).get('params') or {}
     sig = {'entry': t['algo'], 'kind': kind, 'directed': p['directed'], 'max_index_ge_nnz': p['max_index_ge_nnz'],
            'labels_ge_n': labels_ge_n, 'tol_optimization_zero': params.get('tol_optimization', 1) == 0,
-           'label_ge_1e8': bool(lab) and any(int(v) >= 10 ** 8 for v in lab.values())}
+           'label_ge_1e8': bool(lab) and any(int(v) >= 10 ** 8 for v in lab.values()),
+           'tol_aggregation_zero': params.get('tol_aggregation', 1) == 0}
     return sig
 
 
@@ -777,7 +801,7 @@ def judge(ctx, tasks, results, flavour):
         ctx.count('entry:' + t['algo'])
         if st == 'timeout':
             # the verdict is on CPU time: a worker that was starved by the rest of the machine did not hang (review L3)
-            if r.get('cpu_used_s', r.get('limit', 0)) >= 0.5 * r.get('limit', 0):
+            if r.get('cpu_used_s', r.get('limit', 0)) >= 0.25 * r.get('limit', 0):
                 kind = 'timeout'
             else:
                 ctx.count('%s:timeout-starved' % flavour)
